@@ -53,6 +53,11 @@ def jobs(tier):
     add(dict(expl, n_batch=1, variant='accessors', blobs='scalar'))
     add(dict(m=[1, 1], explored=False, shell=-1, n_batch=1, op='add_samples',
              variant='accessors'))
+    # accessors read while a shell is empty (discard view right after the
+    # exploration; newest shell during the exploration)
+    add(dict(expl, n_batch=1, discard=True, variant='accessors'))
+    add(dict(m=[1, 1, 0], explored=False, prov=[0], shell=-1, n_batch=1,
+             op='add_samples', variant='accessors'))
     add(dict(m=[1, 1], explored=True, end_exp=[1, 1], n_batch=1, op='run',
              variant='file'))
     add(dict(m=[], explored=False, n_batch=1, op='run', variant='file'))
